@@ -18,12 +18,17 @@ def time_arg(K, ts, carrier):
     raise ValueError(carrier)
 
 
+def elapsed_whole_seconds(a, b):
+    """z3 Int: whole seconds elapsed from time a to time b (floor of the difference; handles sub-second stamps)"""
+    return (b - a).s
+
+
 class RateOfChange(Job):
     prop = "C10"
 
-    def __init__(self, n, tcarrier="datetime64", canary=None):
-        self.n, self.tcarrier, self.canary = n, tcarrier, canary
-        self.name = f"rate_of_change n={n} time={tcarrier}" + (f" CANARY={canary}" if canary else "")
+    def __init__(self, n, tcarrier="datetime64", canary=None, frac=False):
+        self.n, self.tcarrier, self.canary, self.frac = n, tcarrier, canary, frac
+        self.name = f"rate_of_change n={n} time={tcarrier}{' sub-second stamps' if frac else ''}" + (f" CANARY={canary}" if canary else "")
         if canary:
             self.expect_canary_sat = True
             self.validate_witnesses = False
@@ -34,7 +39,7 @@ class RateOfChange(Job):
     def declare(self, V):
         S = Struct()
         S.x = V.floats("x", self.n, nan=True)
-        S.t = V.times_increasing("t", self.n)
+        S.t = V.times_increasing("t", self.n, frac=self.frac)
         S.thr = V.float("thr", lo=0)
         return S
 
@@ -52,7 +57,7 @@ class RateOfChange(Job):
                 exp = iv(GOOD)
             else:
                 p = S.x[i - 1]
-                dt = z3.ToReal(S.t[i].s - S.t[i - 1].s)
+                dt = z3.ToReal(elapsed_whole_seconds(S.t[i - 1], S.t[i]))
                 big = zabs(x.v - p.v) > S.thr.v * dt
                 if self.canary == "ge":
                     big = zabs(x.v - p.v) >= S.thr.v * dt
@@ -96,9 +101,9 @@ class RateMismatch(Job):
 class Speed(Job):
     prop = "C10"
 
-    def __init__(self, n, tcarrier="datetime64", canary=None):
-        self.n, self.tcarrier, self.canary = n, tcarrier, canary
-        self.name = f"speed n={n} time={tcarrier}" + (f" CANARY={canary}" if canary else "")
+    def __init__(self, n, tcarrier="datetime64", canary=None, frac=False):
+        self.n, self.tcarrier, self.canary, self.frac = n, tcarrier, canary, frac
+        self.name = f"speed n={n} time={tcarrier}{' sub-second stamps' if frac else ''}" + (f" CANARY={canary}" if canary else "")
         if canary:
             self.expect_canary_sat = True
             self.validate_witnesses = False
@@ -110,7 +115,7 @@ class Speed(Job):
         S = Struct()
         S.lon = [V.float(f"lon{i}", nan=True, lo=-180, hi=180, menu=LON_MENU) for i in range(self.n)]
         S.lat = [V.float(f"lat{i}", nan=True, lo=-90, hi=90, menu=LAT_MENU) for i in range(self.n)]
-        S.t = V.times_increasing("t", self.n)
+        S.t = V.times_increasing("t", self.n, frac=self.frac)
         S.st = V.float("st", lo=0)
         S.ft = V.float("ft", lo=0)
         return S
@@ -129,7 +134,7 @@ class Speed(Job):
         full = [mk_and(mk_not(S.lon[i].nan), mk_not(S.lat[i].nan)) for i in range(n)]
         obl.append(("first point is UNKNOWN when it has a full position", mk_or(mk_not(full[0]), flag_is(out.flags[0], UNKNOWN))))
         for i in range(1, n):
-            dt = z3.ToReal(S.t[i].s - S.t[i - 1].s)
+            dt = z3.ToReal(elapsed_whole_seconds(S.t[i - 1], S.t[i]))
             d = GEOD(S.lat[i - 1].v, S.lon[i - 1].v, S.lat[i].v, S.lon[i].v)
             over_f = d > S.ft.v * dt
             if self.canary == "ge":
@@ -147,6 +152,11 @@ def jobs(tier):
         out.append(RateOfChange(n))
     for n in (2, 3):
         out.append(RateOfChange(n, "epoch"))
+    # sub-second timestamps: "whole seconds elapsed" is the floor of the difference, not the difference of floors
+    for n in (2, 3) if tier == "quick" else (2, 3, 4):
+        out.append(RateOfChange(n, frac=True))
+    out.append(RateOfChange(3, "epoch", frac=True))
+    out.append(Speed(2, frac=True))
     for n in range(0, (3 if tier == "quick" else 4) + 1):
         out.append(Speed(n))
     out.append(Speed(2, "epoch"))
@@ -164,7 +174,8 @@ def lemmas(tier):
 
 FUNCTIONS = ["ioos_qc/qartod.py:rate_of_change_test", "ioos_qc/argo.py:speed_test", "ioos_qc/utils.py:great_circle_distance",
              "ioos_qc/utils.py:mapdates"]
-OUTSIDE = ["series longer than the bound", "sub-second or non-increasing times, steps > 2^22 s", "values off grid G",
+OUTSIDE = ["series longer than the bound", "non-increasing times, steps > 2^22 s or below one whole second; sub-second stamps are "
+           "covered by dedicated jobs (fractions are arbitrary reals in the proof, multiples of 1/8 s in replays)", "values off grid G",
            "speed_test: positions with exactly one coordinate missing (property is silent)",
            "speed_test: comparison up to rounding distance of the threshold (geodesic is not on the grid; Lemma Q covers "
            "rate_of_change only)"]
